@@ -146,7 +146,12 @@ pub fn replay_anim_line(tally: &mut Tally, lineno: usize, line: &Value, scales: 
                 if (animated_now && !clock_ok) || (!animated_now && !fine && pa != exp_pa) {
                     t.miss(ctx("snap", json!({"got": [format!("{:?}", sd), format!("{:?}", pa)], "expected_ticks": ob["ticks"], "expected_paused": ob["paused"]})));
                 }
-                // C06: the twin saw the same total time per state in a different partition
+                // C06: the twin saw the same total time per state in a different partition (bit-identical on the exact
+                // grids; on the finer ones the two clocks may differ by the nanosecond rounding of each part only)
+                if fine && animated_now {
+                    let tsd = twin.verif_snapshot().0;
+                    if (tsd - sd).abs() > 1e-5 + 1e-6 * sd.abs() { t.miss(ctx("framerate", json!({"single_clock": format!("{:?}", sd), "partitioned_clock": format!("{:?}", tsd)}))); }
+                }
                 if !fine && (twin.current_values().bits() != v.bits() || twin.is_ended() != a.is_ended() || twin.verif_snapshot() != a.verif_snapshot()) {
                     t.miss(ctx("framerate", json!({"single": v.bits(), "partitioned": twin.current_values().bits()})));
                 }
